@@ -79,10 +79,10 @@ def call_simp(simp, e, rec, seconds=20):
         signal.alarm(0)
 
 
-def corpus(ctx, n_random, n_shaped, enum_widths):
+def corpus(ctx, n_random, n_shaped, enum_widths, small_cap=None):
     rng = ctx.rng
     exprs = []
-    g = exprgen.Gen(rng)
+    g = exprgen.Gen(rng, div_max_w=64 if ctx.quick else 128)
     for _ in range(n_random):
         w = rng.choice(exprgen.WIDTHS + [rng.choice(exprgen.ODD)])
         exprs.append(g.expr(w, rng.choice([1, 2, 2, 3, 3, 4])))
@@ -90,6 +90,10 @@ def corpus(ctx, n_random, n_shaped, enum_widths):
     for _ in range(n_shaped):
         exprs.append((g if rng.random() < 0.7 else g64).shaped())
     small = exprgen.enumerate_small(enum_widths)
+    if small_cap and len(small) > small_cap:
+        # quick tier: every depth-1 form of width 3 is kept (the tail), the rest is a seeded sample
+        keep = small[-800:]
+        small = rng.sample(small[:-800], small_cap - 800) + keep
     return exprs, small
 
 
@@ -106,7 +110,7 @@ def envs_for(e, rng, exhaustive_bits=8, nsample=10):
 def run(ctx, which):
     """which: 'C01' (meaning, no raise) or 'C02' (fixed point, termination)"""
     q = ctx.quick
-    exprs, small = corpus(ctx, 700 if q else 9000, 500 if q else 6000, (1, 2) if q else (1, 2, 3))
+    exprs, small = corpus(ctx, 250 if q else 9000, 350 if q else 6000, (1, 2, 3), small_cap=7000 if q else None)
     rec = Recorder()
     items, meta = [], []
     sims = simplifiers()
